@@ -87,6 +87,40 @@ theorem C01_flatMap {α} (c : Ctor) (v : GoVal) (f : GoVal → α) :
   | just => cases hab : absent v <;> simp [built, wrapped, hab, MaybeV.flatMap, noneBase, MaybeV.ref]
   | generics T => simp [built, wrapped, MaybeV.flatMap]
 
+/-- The same agreement stated on `observe`, the function the driver runs for every op token: for the observers the
+    property names, the observation is the `Spec` value — a function of `absent v` and `v` alone. -/
+theorem C01_observe_spec {α} (c : Ctor) (v : GoVal) (h : Heap) :
+    ∃ m, mk c v = .ok m ∧
+      observe (α := α) h m .isNil = .ok (h, .bool (Spec.isNil v)) ∧
+      observe (α := α) h m .isPresent = .ok (h, .bool (Spec.isPresent v)) ∧
+      (∀ d, observe (α := α) h m (.or d) = .ok (h, .val (Spec.or v d))) ∧
+      observe (α := α) h m .letRun = .ok (h, .count (Spec.letCount v)) ∧
+      observe (α := α) h m .unwrapInterface = .ok (h, .val (Spec.unwrapInterface v)) ∧
+      observe (α := α) h m .type = .ok (h, .type (Spec.type v)) ∧
+      (∀ cv ∈ allConversions, observe (α := α) h m (.conv cv) = .ok (h, .conv (Spec.conv v))) ∧
+      (absent v = true → observe (α := α) h m .toString = .ok (h, .str (some Spec.nilString))) ∧
+      (∀ f : GoVal → R α, observe h m (.flatMap f) = (f (wrapped c v)).map (fun r => (h, .res r))) := by
+  obtain ⟨m, hm, h1, h2, h3, h4, h5, _, h7, _, h9, h10⟩ := C01_agree c v
+  refine ⟨m, hm, ?_, ?_, ?_, ?_, ?_, ?_, ?_, ?_, ?_⟩
+  · simp [observe, h1, Spec.isNil, pure, Except.pure]
+  · simp [observe, h2, h1, Spec.isPresent, pure, Except.pure]
+  · intro d; simp [observe, h3, Spec.or, pure, Except.pure]
+  · have h4' := h4 (σ := Nat) (· + 1) 0
+    simp only [observe, h4', Spec.letCount, pure, Except.pure]
+    try (cases absent v <;> rfl)
+  · simp [observe, h5, Spec.unwrapInterface, pure, Except.pure]
+  · simp [observe, h7, Spec.type, pure, Except.pure]
+  · intro cv hcv
+    have := h9 cv hcv
+    simp only [observe, Spec.conv, pure, Except.pure]
+    cases hab : absent v <;> cases hc : m.conv cv <;> simp_all
+  · intro hab; simp [observe, h10 hab h, Spec.nilString, pure, Except.pure]
+  · intro f
+    obtain ⟨m2, hm2, hf2⟩ := C01_flatMap c v f
+    rw [hm] at hm2; cases hm2
+    simp only [observe, hf2, bind, Except.bind, Except.map, pure, Except.pure]
+    try (cases f (wrapped c v) <;> rfl)
+
 /-- Left identity `Just(a).FlatMap(f) = f(a)`: exact for `JustGenerics[T]`, and for `Maybe.Just` whenever `a` is not
     a typed nil pointer.  (`Maybe.Just` maps a typed nil pointer to `None`, whose wrapped value is the untyped nil:
     there `Just(a).FlatMap(f) = f(nil)` — the first conjunct of `C01_flatMap` with `wrapped`.) -/
